@@ -150,8 +150,8 @@ V("c05-twin-kwargs-order", "C05", "-", "dask_array/_collection.py",
 
 # ---------------------------------------------------------------------------- C06
 V("c06-blockwise-token-drops-align", "C06", "R06.1", "dask_array/_blockwise.py",
-  "                self.new_axes,\n                self.align_arrays,\n                self.concatenate,\n                *args_token,",
-  "                self.new_axes,\n                self.concatenate,\n                *args_token,", expect="Blockwise::align_arrays")
+  "                self.new_axes,\n                self.align_arrays,\n                self.concatenate,\n",
+  "                self.new_axes,\n                self.concatenate,\n", expect="Blockwise::align_arrays")
 V("c06-partialreduce-token-drops-keepdims", "C06", "R06.1", "dask_array/reductions/_reduction.py",
   "                self.func, self.array, self.split_every, self.keepdims, self.dtype\n", "                self.func, self.array, self.split_every, self.dtype\n", expect="PartialReduce::keepdims")
 V("c06-reduction-token-drops-weights", "C06", "R06.1", "dask_array/reductions/_reduction.py",
@@ -630,3 +630,26 @@ V("c03-chunks-match-within-one", "C03", "R03.5", "dask_array/_expr.py",
 V("c03-twin-chunks-match-shortcut", "C03", "-", "dask_array/_expr.py",
   "    if len(a) != len(b):\n        return False\n    return all(\n        len(da) == len(db) and all(sa == sb",
   "    if len(a) != len(b):\n        return False\n    if a is b:\n        return True\n    return all(\n        len(da) == len(db) and all(sa == sb", twin=True)
+
+# ---------------------------------------------------------------------------- R25.5 / R09.5 closure / R12.5
+V("c25-readback-uses-stale-region", "C25", "R25.5", "dask_array/io/_store.py",
+  "            for s, r in zip(stored_persisted, regions_list):", "            for s in stored_persisted:", expect="store::r")
+V("c25-twin-readback-enumerate", "C25", "-", "dask_array/io/_store.py",
+  "            for s, r in zip(stored_persisted, regions_list):", "            for k, s in enumerate(stored_persisted):\n                r = regions_list[k]", twin=True)
+V("c09-closure-memo", "C09", "R09.5", "dask_array/slicing/_utils.py", None, None, expect="closure cache", edits=[
+  ("dask_array/slicing/_utils.py", "def _slice_1d(dim_shape, lengths, index):", "def _memo(func):\n    cache = {}\n\n    def wrapper(dim_shape, lengths, index):\n        key = hash((dim_shape, tuple(lengths), str(index)))\n        if key not in cache:\n            cache[key] = func(dim_shape, lengths, index)\n        return dict(cache[key])\n\n    return wrapper\n\n\n@_memo\ndef _slice_1d(dim_shape, lengths, index):"),
+])
+V("c12-take-identity-loose", "C12", "R12.5", "dask_array/slicing/_basic.py",
+  "                if np.abs(index - arange).sum() == 0:\n                    return x", "                if index[0] == 0 and index[-1] == len(index) - 1:\n                    return x", expect="take")
+V("c12-bounds-check-dropped", "C12", "R12.5", "dask_array/slicing/_vindex.py",
+  "((ind >= size) | (ind < -size)).any()", "(ind >= size).any()", expect="_vindex")
+
+# ---------------------------------------------------------------------------- R25.6
+V("c25-store-node-named-by-content", "C25", "R25.6", "dask_array/io/_store.py",
+  "                name=f\"store-map-{id(t)}\",\n", "                name=\"store-map\",\n", expect="store")
+V("c25-blockwise-token-forgets-name", "C25", "R25.6", "dask_array/_blockwise.py",
+  "                self.operand(\"name\") if \"name\" in self._parameters else None,\n", "", expect="token covers name")
+V("c25-twin-store-name-via-local", "C25", "-", "dask_array/io/_store.py", None, None, twin=True, edits=[
+  ("dask_array/io/_store.py", "                name=f\"store-map-{id(t)}\",\n", "                name=node_name,\n"),
+  ("dask_array/io/_store.py", "        slices = ArraySliceDep(s.chunks)\n        arrays.append(\n            map_blocks(\n                load_store_chunk,", "        slices = ArraySliceDep(s.chunks)\n        node_name = f\"store-map-{id(t)}\"\n        arrays.append(\n            map_blocks(\n                load_store_chunk,"),
+])
